@@ -426,6 +426,16 @@ def job_oracles(script, trace):
     if len(set(sent_runs)) == len(sent_runs) and not all(any(x == y for y in it) for x in ran):
         out.append(("C10", f"run markers executed as {ran}, sent as {sent_runs}"))
     if len(ran) != len(set(ran)) and len(set(sent_runs)) == len(sent_runs): out.append(("C07", f"a run marker executed twice: {ran}"))
+    # C10: urgent before normal — a run marker sent in the same burst as a delete_now (nothing runs between the sends of a
+    # burst: the harness is single-threaded) is still pending when the urgent Stop+Delete is, so it must never execute
+    burst = []
+    for o in ops + ["y"]:
+        if o[:2] in ("s:", "n:"): burst.append(o); continue
+        if any(b.split(":")[1] == "deletenow" for b in burst):
+            for b in burst:
+                if b.split(":")[1] == "run" and b.split(":")[2] in ran and sent_runs.count(b.split(":")[2]) == 1:
+                    out.append(("C10", f"normal control run:{b.split(':')[2]} executed although an urgent delete-now was pending with it (burst {burst})"))
+        burst = []
     # C06: no kill before the grace period of some graceful control has elapsed, in scripts without forceful controls
     forceful = any(o[:2] in ("s:", "n:") and o.split(":")[1] in ("stop", "restart", "tryrestart", "delete", "deletenow", "continue") for o in ops) or "drop" in ops
     if not forceful:
